@@ -55,10 +55,10 @@ QUICK = (["prec_%s_%d" % (o, k) for o in ("int", "bool", "struct") for k in (1, 
             "toml_norm", "toml_sections", "toml_unknown_0", "toml_unknown_1", "toml_unknown_2", "toml_unknown_3",
             "rt_csvint_1", "rt_csvint_2", "rt_errcodes_1", "rt_errcodes_2", "rt_errcodes_3",
             "rt_arrlen_1", "rt_arrlen_2", "rt_events",
-            "rej_timeout_2", "rej_csvint_2", "rej_errcodes_2", "rej_arrlen_2", "rej_events_2"])
+            "rej_timeout_2", "rej_csvint_2", "rej_errcodes_2", "rej_arrlen_2", "rej_arrlen_3", "rej_events_2"])
 THOROUGH_EXTRA = (["prec_%s_%d" % (o, k) for o in ("int", "bool", "struct") for k in (4, 5)]
                   + ["prec_all_3", "prec_enum_3", "solver_cmd_3", "rt_csvint_3", "rt_arrlen_3",
-                     "rej_timeout_3", "rej_csvint_3", "rej_errcodes_3", "rej_arrlen_3", "rej_events_3"])
+                     "rej_timeout_3", "rej_csvint_3", "rej_errcodes_3", "rej_events_3"])
 
 
 def cls_of(name: str) -> str:
